@@ -18,9 +18,10 @@ P("C09",
              "(the two-connection / event-driven-relay topology whose run under the old guard ended with both queues empty and a "
              "deliverable message stranded), c09_ticknow_old_refuted, c09_witness_repaired_clean; the witness input stays in "
              "corpus/C09 and in the directed set. c09_world_projects_partial (C09/Project.v): every run of the executable world model with ONE connection holding all "
-             "ports (any components/scripts/capacities) that respects the engine contract (run_ok, checked on the run; C01's subject) "
-             "is a run of the abstract connection system, so the invariant and clause 1 carry over to it. PARTIAL: not proved for "
-             "several connections nor for the projection onto the draining-component system; there the link is by shared definitions.",
+             "ports (any components/scripts/capacities) is a run of the abstract connection system, so the invariant and clause 1 carry over to it; the engine contract "
+             "this needs is proved to be an invariant of the world model (c09_engine_contract_invariant, C09/Contract.v: queues sorted, "
+             "nothing scheduled before the current time, component events primary / connection events secondary). PARTIAL: not proved "
+             "for several connections nor for the projection onto the draining-component system; there the link is by shared definitions.",
   level_note="Trusted: Coq kernel + vm_compute; the Go harness (builds the topology with the real API, scripted Ticker / "
              "EventProcessor mirroring C09.Model.activate, engine BeforeEvent hook for the trace); the hand-written world model, tied "
              "by exact equality of the full (time, handler) trace and of every port's final state on 500 (quick) random topologies. "
